@@ -35,6 +35,12 @@ Theorem C01_holds : forall c, valid c -> holds c (run_transfer_case c) = [].
 Proof. intros c H. unfold holds. rewrite monitor_accepts by exact H. reflexivity. Qed.
 Print Assumptions C01_holds.
 
+(* the driver reports for every evaluated case whether it satisfies the hypotheses of the theorems
+   (flag `covered` of Tftp.Entries.tftp_entry): where the flag is 1 the theorem above applies *)
+Theorem C01_covered_cases : forall c, validb c = true -> holds c (run_transfer_case c) = [].
+Proof. intros c H. apply C01_holds. apply validb_valid. exact H. Qed.
+Print Assumptions C01_covered_cases.
+
 (* non-vacuity: a three-block transfer with a lost packet and a stale acknowledgement *)
 Definition ex_case : tcase :=
   {| t_content := [1; 2; 3; 4; 5; 6; 7; 8; 9; 10; 11; 12; 13; 14; 15; 16; 17]%N; t_chunks := [3; 1; 5]%nat;
